@@ -92,7 +92,7 @@ pub fn run(rep: &mut Rep) {
     let n = alpha.len() as u64;
     let len = if rep.quick() { 5 } else { 8 };
     let total = n.pow(len);
-    rep.note(&format!("exhaustive: all {total} sequences of length {len} over {{PUBLISH(QoS 2, id 1/2/3, DUP 0/1), PUBREL(id 1/2/3)}} delivered to a client with one live stream (CONNACK limits rotating through none / Receive Maximum 1 / Receive Maximum 2 + Maximum Packet Size 200); stream items compared with the model's set of distinct QoS 2 messages after every packet"));
+    rep.note(&format!("exhaustive: all {total} sequences of length {len} over {{PUBLISH(QoS 2, three identifiers, DUP 0/1), PUBREL}} (identifier triples rotating through 1/2/3, 5/0x105/0x205, 0xff/0xff00/0xffff, 7/2/0x702) delivered to a client with one live stream (CONNACK limits rotating through none / Receive Maximum 1 / Receive Maximum 2 + Maximum Packet Size 200); stream items compared with the model's set of distinct QoS 2 messages after every packet"));
     for idx in 0..total {
         let id = format!("exh:{len}:{idx}");
         if !rep.take(idx, &id) {
@@ -113,10 +113,12 @@ pub fn run(rep: &mut Rep) {
         w.settle_check();
         w.take_stream(a);
         let sid = w.sub_id_of(a).unwrap_or(1);
+        // the three identifiers are 1,2,3 or values that agree in their low byte / are byte-swapped / sit at the top of the range
+        let idset: [u16; 3] = [[1, 2, 3], [5, 0x0105, 0x0205], [0x00ff, 0xff00, 0xffff], [7, 2, 0x0702]][((idx / 4) % 4) as usize];
         for s in &seq {
             match *s {
-                Q2::Pub(id, dup) => w.in_publish(2, id, dup, &[sid], false),
-                Q2::Rel(id) => w.in_pubrel(id),
+                Q2::Pub(id, dup) => w.in_publish(2, idset[(id - 1) as usize], dup, &[sid], false),
+                Q2::Rel(id) => w.in_pubrel(idset[(id - 1) as usize]),
             }
             w.settle_check();
         }
